@@ -591,9 +591,9 @@ def main():
         print(("REPRODUCED: " if reproduced else "NOT REPRODUCED: ") + detail)
         return 1 if reproduced else 0
     validate(H, 60 if quick else 300)
-    run_reassociation(H, 5 if quick else 6)
+    run_reassociation(H, 4 if quick else 5)
     run_grammar(H, 6 if quick else 8)
-    H.bounds.update({"A": "expressions with at most %d operands over application, * /, + - and parentheses; operators, group flags, names and positions symbolic" % (5 if quick else 6),
+    H.bounds.update({"A": "expressions with at most %d operands over application, * /, + - and parentheses; operators, group flags, names and positions symbolic" % (4 if quick else 5),
                      "C": "token strings of length <= %d over the 28 token kinds" % (6 if quick else 8),
                      "outside": "part B (which token strings the packrat functions accept) is not claimed; longer chains; formers other than the three chain levels inside chains"})
     H.assumptions += ["the right-nested input trees are built as the packrat functions build them (span of first to last token, group flag on parenthesised terms only)"]
